@@ -39,12 +39,8 @@ def rectRef (q : Rect) : String := nameOf q.c1 q.r1 ++ ":" ++ nameOf q.c2 q.r2
 def vTok (sst : List Tok) (v : CellV) : String :=
   if v.v = "" then "-"
   else if v.t = "s" then
-    match unhex v.v.toList with
-    | some ds => match Ref.digitsVal ds with
-      | some i => match sst[i]? with
-        | some e => e
-        | none => "!" ++ v.v
-      | none => "!" ++ v.v
+    match sstEntry? sst v.v with
+    | some e => e
     | none => "!" ++ v.v
   else v.v
 
